@@ -131,20 +131,25 @@ def program(code: List[int], i1: int, i2: int, i3: int) -> bool:
 
 # ------------------------------------------------------------------ shards
 K = {k: i for i, k in enumerate(R.KINDS)}
-LEAF = {'$': 0, '$x': 1, '1': 2, '$.a': 3, '$y': 4, '$.b': 5, '$2': 6, 'null': 7}
+LEAF = {'$': 0, '$x': 1, '1': 2, '$.a': 3, '$y': 4, '$.b': 5, '$2': 6, }
 
 
-def tpl(*tokens):
-    """tokens: a kind name, '=<leaf>' for a leaf child (kind leaf + that leaf), '<leaf>' for a bare leaf slot (depth 0),
-    '?' for a symbolic slot, '=?' for a leaf child with a symbolic leaf, 'a'/'b' after mem"""
+def tpl(tokens, wide):
+    """tokens: a kind name; '=<leaf>' a depth-1 child that is a leaf (kind leaf + that leaf); '<leaf>' a bare leaf slot
+    (depth 0); '?' a symbolic slot; '=?' a leaf child with a symbolic leaf; 'key:a'/'key:b' after mem;
+    '~<leaf>' / '=~<leaf>': that leaf in the quick tier, a symbolic slot in the thorough tier (wide)"""
     out = []
     for t in tokens:
+        lead = []
+        if t.startswith('='):
+            lead = [K['leaf']]
+            t = t[1:]
+        if t.startswith('~'):
+            t = '?' if wide else t[1:]
         if t == '?':
-            out.append(None)
-        elif t == '=?':
-            out += [K['leaf'], None]
-        elif t.startswith('=') and t[1:] in LEAF:
-            out += [K['leaf'], LEAF[t[1:]]]
+            out += lead + [None]
+        elif lead:
+            out += lead + [LEAF[t]]
         elif t in K:
             out.append(K[t])
         elif t in LEAF:
@@ -157,42 +162,61 @@ def tpl(*tokens):
 
 
 # scoping core, depth 2.  Code order is breadth first: root kind, then the root's children (a child of depth 1 reads its
-# kind [+ its own extras], a depth-0 slot reads a leaf), then the grandchildren leaves.
+# kind [+ its own extras], a depth-0 slot reads a leaf), then the grandchildren leaves.  Most important first: the quick
+# tier takes a window of this list (rotated by the seed), the thorough tier all of it with the '~' slots symbolic too.
 CORE = [
-    # let(x => E) -> B with B a list / sum / nested let / select / def / keyword call
-    ('int', tpl('let1', '=?', 'list', '?', '?')), ('int', tpl('let1', '=?', 'bin+', '?', '?')),
-    ('int', tpl('let1', '=?', 'let1', '?', '?')), ('list', tpl('let1', '=?', 'select', '?', '?')),
-    ('int', tpl('let1', '=?', 'defc', '?', '?')), ('dict', tpl('let1', '?', '=?', '=?')),
-    ('int', tpl('let1', 'let1', '=?', '?', '$x')), ('list', tpl('let1', 'select', '=?', '$', '?', '?')),
-    # lambdas: $ of the innermost lambda, named variables from outside
-    ('list', tpl('select', '=?', 'let1', '?', '?')), ('rows', tpl('select', '=$', 'bin+', '?', '?')),
-    ('list', tpl('select', '=$', 'select', '?', '?')), ('rows', tpl('select', '=$', 'select', '?', '?')),
-    ('list', tpl('where', '=$', 'bin>', '?', '?')), ('list', tpl('select', '=$', 'list', '?', '?')),
-    ('list', tpl('select', 'list', '=?', '?', '$')), ('list', tpl('select', 'select', '=?', '$', '?')),
-    # closures
-    ('int', tpl('clos', '?', 'bin+', '?', '$', '$', '$x')), ('int', tpl('clos', '1', '=?', '?', '?')),
-    ('int', tpl('clos', '?', 'list', '?', '$', '$x', '?')), ('int', tpl('defc', 'bin+', '=?', '?', '?')),
-    ('int', tpl('defc', 'let1', '=?', '?', '?')), ('list', tpl('defc', 'select', '=?', '?', '?')),
-    ('int', tpl('defc', 'list', 'defc', '?', '?')), ('int', tpl('defc', '=?', 'call', '?')),
-    ('int', tpl('let1', '=?', 'callkw', '?')), ('int', tpl('defc', '=?', 'callkw', '?')),
-    # with / unpack / positional let
-    ('int', tpl('with', '=?', '?', 'bin+', '?', '?')), ('int', tpl('with', '=?', '?', 'list', '?', '?')),
-    ('dict', tpl('unpk', '=?', '?', 'list', '?', '?')), ('int', tpl('unpk', '=?', '?', 'bin+', '?', '?')),
-    ('list', tpl('unp0', '=?', 'list', '?', '?')), ('list', tpl('unp0', 'list', 'bin+', '?', '?', '?')),
-    ('int', tpl('letp', '=?', 'list', '?', '?')), ('int', tpl('letp', 'letp', 'list', '?', '$', '?', '$')),
-    ('int', tpl('let2', '=?', '?', 'bin+', '?', '?')), ('int', tpl('let2', '=?', '?', 'list', '?', '?')),
-    # bindings do not leak to siblings
-    ('int', tpl('list', 'let1', '=?', '?', '?')), ('int', tpl('list', 'let1', 'let1', '?', '?', '$', '?')),
-    ('int', tpl('bin+', 'let1', '=?', '?', '?')), ('int', tpl('map', 'let1', '=?', '?', '?')),
-    ('int', tpl('list', 'defc', 'call', '?', '?')), ('int', tpl('list', 'with', '=?', '?', '?', '?')),
-    ('int', tpl('list', 'unpk', '=?', '?', '?', '?')),
-    # member access / indexing / maps over collections
-    ('rows', tpl('mem', '?', '?')), ('rows', tpl('mem', 'key:a', 'select', '?', '?')), ('nest', tpl('mem', '?', 'mem', '?', '?')),
-    ('dict', tpl('idx', '=?', '?')), ('list', tpl('idx', '=?', '?')), ('rows', tpl('idx', 'mem', '?', '?', '?')),
-    ('rows', tpl('select', '=$', 'mem', '?', '?')), ('rows', tpl('sum', 'mem', '?', '?')),
-    ('list', tpl('sum', 'select', '?', '?')), ('rows', tpl('len', 'where', '$', '?')),
-    ('rows', tpl('where', '=$', 'mem', '?', '?')),
+    ('int', ['clos', '~1', 'bin+', '?', '=$', '$', '?']),          # closure: x of the definition or of the call?
+    ('int', ['let1', '=~$', 'list', '?', '?']),                    # let(x => $) -> [?, ?]
+    ('list', ['select', '=$', 'list', '?', '?']),                  # $.select([?, ?]): $ of the lambda
+    ('int', ['list', 'let1', '=?', '~$', '?']),                    # [let(x => $) -> ?, ?]: no leak to the sibling
+    ('list', ['select', '=~$', 'let1', '?', '?']),                 # $.select(let(x => ?) -> ?)
+    ('int', ['defc', 'bin+', '=~$', '?', '?']),                    # def(f, ? + ?) -> f($)
+    ('int', ['let1', '=~$', 'defc', '?', '?']),                    # let(x => $) -> def(f, ?) -> f(?)
+    ('list', ['select', '=$', 'select', '?', '?']),                # $.select(?.select(?)): innermost $
+    ('int', ['with', '=~$', '~1', 'list', '?', '?']),              # with($, 1) -> [?, ?]
+    ('dict', ['unpk', '=~$.a', '~1', 'list', '?', '?']),           # [$.a, 1].unpack(x, y) -> [?, ?]
+    ('int', ['let1', '=~$', 'let1', '?', '?']),                    # shadowing
+    ('rows', ['mem', '?', '?']),                                   # ?.a / ?.b over every child kind
+    ('int', ['letp', '=~$x', 'list', '?', '?']),                   # let(?) -> [?, ?]: $ rebinding
+    ('int', ['let2', '=~$', '~1', 'bin+', '?', '?']),
+    ('list', ['where', '=$', 'bin>', '?', '?']),
+    ('int', ['clos', '?', 'list', '~1', '=$', '$x', '?']),
+    ('list', ['let1', '=~$', 'select', '?', '?']),                 # let(x => $) -> ?.select(?)
+    ('int', ['defc', '=?', 'call', '?']),                          # def(f, ?) -> f(f(?))
+    ('int', ['defc', '=?', 'callkw', '?']),                        # def(f, ?) -> f(f(x => ?))
+    ('rows', ['select', '=$', 'mem', '?', '?']),                   # $.select(?.k)
+    ('list', ['unp0', '=~$', 'list', '?', '?']),                   # $.unpack() -> [?, ?]
+    ('dict', ['idx', '=?', '?']),
+    ('int', ['bin+', 'let1', '=?', '~$', '?']),
+    ('int', ['map', 'let1', '=?', '~$', '?']),
+    ('rows', ['select', '=$', 'bin+', '?', '?']),
+    ('int', ['defc', 'let1', '=~$', '?', '?']),
+    ('list', ['defc', 'select', '=~$', '?', '?']),
+    ('int', ['list', 'defc', 'call', '?', '?']),
+    ('int', ['list', 'with', '=?', '~$', '~1', '?']),
+    ('int', ['list', 'unpk', '=?', '~$', '~1', '?']),
+    ('list', ['select', 'list', '=?', '~$', '?']),
+    ('list', ['select', 'select', '=?', '~$', '?']),
+    ('list', ['let1', 'select', '=?', '~$', '?']),
+    ('int', ['let1', 'let1', '=?', '~$', '?']),
+    ('int', ['letp', 'letp', 'list', '~$', '?', '?', '$']),
+    ('int', ['list', 'let1', 'let1', '~$', '?', '~$', '?']),
+    ('rows', ['mem', 'key:a', 'select', '?', '?']),
+    ('nest', ['mem', '?', 'mem', '?', '~$']),
+    ('list', ['idx', '=?', '?']),
+    ('rows', ['idx', 'mem', '?', '?', '~$']),
+    ('rows', ['sum', 'mem', '?', '?']),
+    ('list', ['sum', 'select', '?', '?']),
+    ('rows', ['len', 'where', '$', '?']),
+    ('rows', ['where', '=$', 'mem', '?', '?']),
+    ('int', ['let1', '=?', 'callkw', '?']),
+    ('list', ['unp0', 'list', 'bin+', '~$', '?', '?']),
+    ('int', ['unpk', '=~$', '~1', 'bin+', '?', '?']),
+    ('int', ['with', '=~$', '~1', 'bin+', '?', '?']),
+    ('int', ['let2', '=~$', '~1', 'list', '?', '?']),
 ]
+SCOPING_ROOTS = ['let1', 'select', 'where', 'defc', 'clos', 'with', 'unpk', 'unp0', 'letp', 'let2', 'mem', 'idx']
+NQUICK = 22
 
 
 def shard_list(tier, seed):
@@ -200,28 +224,57 @@ def shard_list(tier, seed):
     quick = tier == 'quick'
     out = []
     rnd = random.Random(1000 + seed)
-    core = list(CORE)
     if quick:
-        rnd.shuffle(core)
-        core = core[:H.P('ncore', 22)]
-    for doc, template in core:
-        out.append({'doc': doc, 'template': template, 'depth': 2})
-    n_random = 10 if quick else 200
-    for i in range(n_random):
-        depth = 2 if i % 3 else 3
-        n = rnd.randint(3, 6) if depth == 2 else rnd.randint(6, 12)
-        template = [rnd.randrange(len(R.KINDS)) for _ in range(n)]
-        holes = rnd.sample(range(1, n), 2)
-        for h in holes:
+        start = (seed * NQUICK) % len(CORE)
+        core = (CORE + CORE)[start:start + NQUICK]
+    else:
+        core = CORE
+    for doc, tokens in core:
+        out.append({'doc': doc, 'template': tpl(tokens, False), 'depth': 2})
+        if not quick and tpl(tokens, True) != tpl(tokens, False) and tpl(tokens, True).count(None) <= 3 \
+                and CORE.index((doc, tokens)) < 12:
+            out.append({'doc': doc, 'template': tpl(tokens, True), 'depth': 2})
+    n_random = 4 if quick else 60
+    made = 0
+    while made < n_random:
+        # a random depth-3 program; two of its LEAF slots become symbolic (found by recording what the decoder reads)
+        code = [rnd.randrange(1, len(R.KINDS))] + [rnd.randrange(len(R.KINDS)) for _ in range(40)]
+        slots = leaf_slots(code, 3)
+        if len(slots) < 3 or max(slots) > 24:
+            continue
+        template = code[:max(slots) + 1]
+        for h in slots:
+            template[h] = rnd.randrange(len(R.LEAVES))
+        for h in rnd.sample(slots, 2):
             template[h] = None
-        out.append({'doc': rnd.choice(list(R.DOCS)), 'template': template, 'depth': depth})
+        out.append({'doc': rnd.choice(list(R.DOCS)), 'template': template, 'depth': 3})
+        made += 1
     if not quick:
-        # every root kind x every kind of its first child, the two following slots symbolic
-        for root in R.KINDS:
+        # every scoping root x every kind of its first child, the following slot symbolic
+        for root in SCOPING_ROOTS:
             for child in R.KINDS:
                 out.append({'doc': ['dict', 'rows', 'list', 'int', 'nest'][(K[root] + K[child]) % 5],
-                            'template': [K[root], K[child], None, None], 'depth': 2})
+                            'template': [K[root], K[child], None], 'depth': 2})
     return out
+
+
+def leaf_slots(code, depth):
+    """positions of the code that the decoder reads as leaves"""
+    slots = []
+
+    orig = R.Cursor
+
+    class Rec(orig):
+        def take(self, k):
+            if k == len(R.LEAVES) and self.pos < len(self.code):
+                slots.append(self.pos)
+            return orig.take(self, k)
+    R.Cursor = Rec
+    try:
+        R.decode(code, depth)
+    finally:
+        R.Cursor = orig
+    return slots
 
 
 def show(template):
